@@ -3,8 +3,6 @@
 From Coq Require Import PeanoNat.
 From RV Require Import Paths.Model Paths.Basics Paths.Eval Paths.Spec.
 
-Lemma ev_spec_weaken g f R (K K' : Prop) : (K' -> K) -> ev_spec g f R K -> ev_spec g f R K'.
-Proof. intros H Hs s o Hc. apply Hs. eapply cond_weaken; eauto. Qed.
 
 Lemma forallb_Forall {A} (p : A -> bool) l : forallb p l = true <-> Forall (fun a => p a = true) l.
 Proof. rewrite forallb_forall, Forall_forall. tauto. Qed.
@@ -18,44 +16,61 @@ Proof.
     destruct E as (a & Ha & Hp). rewrite (H a Ha) in Hp. discriminate.
 Qed.
 
+Definition enum_set_ok (g : graph) (En : enum) : Prop :=
+  forall pt t, In t (En pt) <-> In t g /\ matches pt t = true.
+
+Lemma std_enum_ok g : enum_set_ok g (std_enum g).
+Proof. intros pt t. unfold std_enum, triples_of. apply filter_In. Qed.
+
 Section M.
 Variable g : graph.
+Variable En : enum.
+Hypothesis HE : enum_set_ok g En.
 Variable n : nat.
 Hypothesis Hn : fuel g <= n.
 
-Lemma neg_clean_of l : wfp (Neg l) = true -> has_ninv (Neg l) = false -> neg_clean l.
+Lemma neg_nobad_of l : wfp (Neg l) = true -> neg_nobad l.
 Proof.
-  simpl. rewrite negb_false_iff, is_nil_true, forallb_forall. intros Hw Hiv a Ha.
-  destruct a as [q|q|].
-  - eauto.
-  - exfalso. assert (In q (neg_iv l)) by (unfold neg_iv; rewrite in_flat_map; exists (NInv q); simpl; auto).
-    rewrite Hiv in H. destruct H.
-  - specialize (Hw _ Ha). discriminate.
+  simpl. rewrite forallb_forall. intros Hw a Ha ->. specialize (Hw _ Ha). discriminate.
 Qed.
 
-(* every evaluator meets the specification relation, for every binding of the ends *)
-Theorem eval_spec p : wfp p = true -> has_ninv p = false ->
-  ev_spec g (eval g n p) (path_rel g p) True.
+(* every evaluator computes the code's relation [impl_rel], for every binding of the
+   ends, every well-formed path (inverse members of negated sets included) and
+   every enumeration order of the store *)
+Theorem evalE_spec p : wfp p = true ->
+  ev_spec g (evalE En g n p) (impl_rel g p).
 Proof.
-  induction p as [q|a IH|l IH|l IH|a m IH|l] using path_ind2; intros Hw Hi.
-  - apply ev_iri_spec.
+  induction p as [q|a IH|l IH|l IH|a m IH|l] using path_ind2; intros Hw.
+  - apply ev_iri_spec; auto.
   - simpl. apply ev_inv_spec. apply IH; auto.
-  - simpl in Hw, Hi. rewrite andb_true_iff, negb_true_iff, forallb_forall in Hw.
-    rewrite existsb_false in Hi. destruct Hw as [Hne Hw].
-    eapply ev_spec_weaken; [|apply (ev_seq_spec g (fun a => eval g n a) (fun a => path_rel g a) (fun _ => True))].
-    + intros _ a _. exact I.
-    + intros a. apply path_rel_RN.
+  - simpl in Hw. rewrite andb_true_iff, negb_true_iff, forallb_forall in Hw. destruct Hw as [Hne Hw].
+    apply (ev_seq_spec g (fun a => evalE En g n a) (fun a => impl_rel g a)).
+    + intros a. apply impl_rel_RN.
     + destruct l; [discriminate|congruence].
     + rewrite Forall_forall in IH |- *. intros a Ha. apply IH; auto.
-  - simpl in Hw, Hi. rewrite forallb_forall in Hw. rewrite existsb_false in Hi.
-    eapply ev_spec_weaken; [|apply (ev_alt_spec g (fun a => eval g n a) (fun a => path_rel g a) (fun _ => True))].
-    + intros _ a _. exact I.
-    + rewrite Forall_forall in IH |- *. intros a Ha. apply IH; auto.
-  - simpl. apply ev_mul_spec; auto. apply path_rel_RN.
-  - apply ev_neg_spec; apply neg_clean_of; auto.
+  - simpl in Hw. rewrite forallb_forall in Hw.
+    apply (ev_alt_spec g (fun a => evalE En g n a) (fun a => impl_rel g a)).
+    rewrite Forall_forall in IH |- *. intros a Ha. apply IH; auto.
+  - simpl. apply ev_mul_spec; auto.
+    + apply (enum_all_nodes g En HE).
+    + apply impl_rel_RN.
+  - apply (ev_neg_spec g En HE). apply neg_nobad_of; auto.
 Qed.
 
 End M.
+
+Lemma ev_spec_ext g f R S : req R S -> ev_spec g f R -> ev_spec g f S.
+Proof.
+  intros H Hs s o. destruct (Hs s o) as (l & Hl & Hin). exists l. split; auto.
+  intros x y. rewrite Hin, (H x y). tauto.
+Qed.
+
+Theorem eval_spec g n p : fuel g <= n -> wfp p = true -> has_ninv p = false ->
+  ev_spec g (eval g n p) (path_rel g p).
+Proof.
+  intros Hn Hw Hi. eapply ev_spec_ext; [apply impl_rel_eq; auto|].
+  apply evalE_spec; auto. apply std_enum_ok.
+Qed.
 
 (* ---------------------------------------------------------------- closures have no duplicates *)
 Lemma NoDup_map_swap l : NoDup l -> NoDup (map swap l).
@@ -73,18 +88,22 @@ Qed.
 
 (* unconditional: whatever the inner evaluators do, the [done] filter (which holds
    the zero-length pair from the start) lets no pair through twice *)
-Lemma dup_free g n p : forall s o l,
-  closure_top p = true -> eval g n p s o = Ok l -> NoDup l.
+Lemma dup_freeE En g n p : forall s o l,
+  closure_top p = true -> evalE En g n p s o = Ok l -> NoDup l.
 Proof.
   induction p as [q|a IH|l0|l0|a IH m|l0]; intros s o l Hc He; try discriminate.
   - simpl in *. unfold ev_inv in He.
-    destruct (eval g n a o s) as [l1| |] eqn:E; try discriminate.
+    destruct (evalE En g n a o s) as [l1| |] eqn:E; try discriminate.
     simpl in He. injection He as <-. apply NoDup_map_swap. eapply IH; eauto.
-  - cbn [eval] in He. unfold ev_mul in He.
-    destruct (mul_raw g n (eval g n a) m s o) as [r| |]; try discriminate.
+  - cbn [evalE] in He. unfold ev_mul in He.
+    destruct (mul_raw (En (None, None, None)) n (evalE En g n a) m s o) as [r| |]; try discriminate.
     simpl in He. injection He as <-.
     apply (dedup_acc_NoDup pr_eqb pr_eqb_spec). apply mul_pre_NoDup.
 Qed.
+
+Lemma dup_free g n p : forall s o l,
+  closure_top p = true -> eval g n p s o = Ok l -> NoDup l.
+Proof. apply dup_freeE. Qed.
 
 (* ---------------------------------------------------------------- the tie *)
 Lemma xlate_id p : has_ninv p = false -> xlate p = p.
@@ -125,7 +144,15 @@ Theorem sound_complete g p s o :
   wfp p = true -> has_ninv p = false ->
   exists l, eval g (fuel g) p s o = Ok l
             /\ forall x y, In (x, y) l <-> path_rel g p x y /\ ends_ok g s o x y.
-Proof. intros Hw Hi. exact (eval_spec g (fuel g) (le_n _) p Hw Hi s o (or_introl I)). Qed.
+Proof. intros Hw Hi. exact (eval_spec g (fuel g) p (le_n _) Hw Hi s o). Qed.
+
+(* the pinned semantics: what the code computes for EVERY well-formed path, inverse
+   members of negated sets included - in particular it terminates *)
+Theorem impl_sound_complete g p s o :
+  wfp p = true ->
+  exists l, eval g (fuel g) p s o = Ok l
+            /\ forall x y, In (x, y) l <-> impl_rel g p x y /\ ends_ok g s o x y.
+Proof. intros Hw. exact (evalE_spec g (std_enum g) (std_enum_ok g) (fuel g) (le_n _) p Hw s o). Qed.
 
 Theorem spec_ok_model c : wf c -> kf c = 0%N -> spec_ok c (model_obs c) = true.
 Proof.
@@ -163,7 +190,7 @@ Lemma zero_length g n a m x l :
    \/ eval g n (Mul a m) (Some x) (Some x) = Ok l) ->
   In (x, x) l.
 Proof.
-  intros Hz H. cbn [eval] in H. unfold ev_mul in H. rewrite Hz in H.
+  intros Hz H. unfold eval in H. cbn [evalE] in H. unfold ev_mul in H. rewrite Hz in H.
   destruct H as [H|[H|H]];
     match type of H with rmap _ ?r = _ => destruct r; try discriminate end;
     simpl in H; rewrite ?N.eqb_refl in H; injection H as <-;
@@ -174,16 +201,16 @@ Qed.
 (* before the F4d fix: p3*/q4*/p3* backwards from a term that is not in the (empty) graph *)
 Lemma hist_seq_bw_refuted :
   let g : graph := [] in
-  let l := [ev_mul g 1 (ev_iri g 3%N) ZeroOrMore; ev_mul g 1 (ev_iri g 4%N) ZeroOrMore;
-            ev_mul g 1 (ev_iri g 3%N) ZeroOrMore] in
+  let l := [ev_mul g 1 (ev_iri (std_enum g) 3%N) ZeroOrMore; ev_mul g 1 (ev_iri (std_enum g) 4%N) ZeroOrMore;
+            ev_mul g 1 (ev_iri (std_enum g) 3%N) ZeroOrMore] in
   hist_seq_bw l None (Some 1%N) = Ok [] /\ seq_bw l None (Some 1%N) = Ok [(1, 1)]%N.
 Proof. vm_compute. split; reflexivity. Qed.
 
 (* before the F4b fix: p* from a node on a 2-cycle *)
 Lemma hist_ev_mul_refuted :
   let g : graph := [(1, 3, 2); (2, 3, 1)]%N in
-  hist_ev_mul g (fuel g) (ev_iri g 3%N) ZeroOrMore (Some 1%N) None = Ok [(1, 1); (1, 2); (1, 1)]%N
-  /\ ev_mul g (fuel g) (ev_iri g 3%N) ZeroOrMore (Some 1%N) None = Ok [(1, 1); (1, 2)]%N.
+  hist_ev_mul g (fuel g) (ev_iri (std_enum g) 3%N) ZeroOrMore (Some 1%N) None = Ok [(1, 1); (1, 2); (1, 1)]%N
+  /\ ev_mul g (fuel g) (ev_iri (std_enum g) 3%N) ZeroOrMore (Some 1%N) None = Ok [(1, 1); (1, 2)]%N.
 Proof. vm_compute. split; reflexivity. Qed.
 
 (* ---------------------------------------------------------------- histories *)
@@ -214,4 +241,28 @@ Proof.
         destruct (IH g os' H pre p s o sp post eq_refl) as (ob' & ? & ?). exists ob'. simpl; auto.
       * exact (IH _ os H pre p s o sp post eq_refl).
       * exact (IH _ os H pre p s o sp post eq_refl).
+Qed.
+
+(* ---------------------------------------------------------------- ?x path ?x *)
+Theorem spec_ok_same_model c : wf_same c -> kf c = 0%N -> spec_ok_same c (model_obs_same c) = true.
+Proof.
+  intros (Hw & Hs & Ho) Hk. apply kf_zero in Hk. unfold model_obs_same. rewrite model_obs_eval by auto.
+  destruct Hk as [H1 H2]. unfold wf in Hw. rewrite Hs, Ho.
+  destruct (sound_complete (c_g c) (c_path c) None None Hw H2) as (l & Hl & Hin).
+  rewrite Hl. simpl. apply (seteqb_spec pr_eqb pr_eqb_spec). intros [x y].
+  rewrite !filter_In, Hin, expected_spec. tauto.
+Qed.
+
+Theorem spec_ok_same_reading c l :
+  spec_ok_same c (Ok l) = true <->
+  forall x y, In (x, y) l <-> x = y /\ path_rel (c_g c) (c_path c) x x /\ In x (nodes (c_g c)).
+Proof.
+  unfold spec_ok_same. rewrite (seteqb_spec pr_eqb pr_eqb_spec).
+  assert (H : forall x y, In (x, y) (filter diag (expected (c_g c) (c_path c) None None))
+                          <-> x = y /\ path_rel (c_g c) (c_path c) x x /\ In x (nodes (c_g c))).
+  { intros x y. rewrite filter_In, expected_spec. unfold diag. simpl. rewrite N.eqb_eq.
+    split; [intros [[Hr [Hx Hy]] ->]; auto|intros (-> & Hr & Hx); auto]. }
+  split.
+  - intros Hs x y. rewrite (Hs (x, y)). apply H.
+  - intros Hs [x y]. rewrite Hs. symmetry. apply H.
 Qed.
